@@ -69,7 +69,7 @@ func scenC10(r *Run) {
 	ended := false
 	var first any
 	task := r.Spawn("open", func() { first = pub.New(l.RootURL, nil) })
-	r.Drive(func() bool { return task.Done }, hugeHorizon, 100000)
+	r.Drive(func() bool { return task.Done }, hugeHorizon, 20000)
 	if !task.Done {
 		r.Violate("C10", "M-live", "open-did-not-return", "pub.New of the collection did not return")
 		return
@@ -96,7 +96,7 @@ func scenC10(r *Run) {
 		task := r.Spawn(fmt.Sprintf("harvest%d", i), func() {
 			out.items, out.cont, out.off = c.Harvest(n, o)
 		})
-		end := r.Drive(func() bool { return task.Done }, hugeHorizon, 300000)
+		end := r.Drive(func() bool { return task.Done }, hugeHorizon, 20000)
 		if !task.Done {
 			r.Violate("C10", "M-live", "harvest-did-not-return", fmt.Sprintf("request #%d (n=%d) on layout %s did not return (%v); delivered so far %d items", i, n, l.Describe(), end, len(got)))
 			return
